@@ -115,7 +115,7 @@ def name_tree(rng, shape, fancy=False):
         return (me, tuple(rec(k) for k in t[1]))
     return rec(shape)
 
-def rand_tree(rng, nleaves=None, maxleaves=8, fancy=False, cat=0.08):
+def rand_tree(rng, nleaves=None, maxleaves=8, fancy=False, cat=0.08, unary=0.0):
     if nleaves is None:
         nleaves = rng.randint(2, maxleaves)
     r = rng.random()
@@ -126,7 +126,19 @@ def rand_tree(rng, nleaves=None, maxleaves=8, fancy=False, cat=0.08):
     else:
         shape = rand_shape(rng, nleaves)
     shape = shuffle_shape(rng, shape)
+    if unary:
+        shape = add_unary(rng, shape, unary)
     return name_tree(rng, shape, fancy)
+
+def add_unary(rng, t, p):
+    """insert single-child internal nodes (a clade with one sub-clade: legal Newick, e.g. '((A,B)X)Y'); only usable
+    with the tree's own internal names, synthesised names of such a node and its child coincide"""
+    ks = [add_unary(rng, k, p) for k in t[1]]
+    ks = [[None, [k]] if rng.random() < p else k for k in ks]
+    return [t[0], ks]
+
+def has_unary(T):
+    return (len(T[1]) == 1) or any(has_unary(k) for k in T[1])
 
 def shuffle_shape(rng, t):
     ks = [shuffle_shape(rng, k) for k in t[1]]
@@ -199,7 +211,7 @@ def gen_lineage(rng, T, p, ids, P):
             subs.insert(rng.randint(0, len(subs)), ('ann', e))
     return ('grp', written, hid, label, subs)
 
-DEFAULT_P = dict(loss=0.25, dup=0.3, elide=0.5, subid=0.3, label=0.3, ann=0.25, loft=0.15)
+DEFAULT_P = dict(loss=0.25, dup=0.3, elide=0.5, subid=0.3, label=0.3, ann=0.25, loft=0.15, unary_trees=0.1)
 
 def force_written(l):
     return ('grp', True) + tuple(l[2:])
@@ -527,7 +539,10 @@ def make_dataset(rng, T=None, naming=None, nfam=None, P=None, maxleaves=8, int_i
                  fancy=False, max_tries=200):
     P = dict(DEFAULT_P, **(P or {}))
     if T is None:
-        T = rand_tree(rng, maxleaves=maxleaves, fancy=fancy, cat=(0.35 if P.get('chainy', 0) > 0.3 else 0.08))
+        T = rand_tree(rng, maxleaves=maxleaves, fancy=fancy, cat=(0.35 if P.get('chainy', 0) > 0.3 else 0.08),
+                      unary=(0.15 if (naming in (None, 'own') and rng.random() < P.get('unary_trees', 0.0)) else 0.0))
+    if has_unary(T):
+        naming = 'own'
     if naming is None:
         naming = rng.choice(['own', 'synth'])
     if int_ids is None:
